@@ -83,6 +83,7 @@ func VerifC04OrderFrac() {
 	b := Time64FromTime(time.Unix(sec, ns2).UTC())
 	v.Assert(a.Seconds == b.Seconds, "C04.orderfrac.same-seconds")
 	v.Assert(a.Fraction <= b.Fraction, "C04.orderfrac.fraction-monotone")
+	v.Assert(ns == ns2 || a.Fraction < b.Fraction, "C04.orderfrac.fraction-strictly-monotone")
 	v.Assert(!b.Before(a) && !a.After(b), "C04.orderfrac.before-after")
 
 	s32, f, f2 := v.Uint32("s32"), v.Uint32("f"), v.Uint32("f2")
